@@ -89,6 +89,20 @@ def stores_of(tree, ctx=(), aff=None):
     return out, other
 
 
+def store_tags(tree, out=None):
+    """{source location of a store: memory-state tag at the store}"""
+    out = {} if out is None else out
+    for t in tree:
+        if t[0] == 'loop':
+            store_tags(t[3], out)
+        elif t[0] == 'store' and len(t) > 5:
+            out[t[4]] = t[5]
+        elif t[0] == 'if':
+            store_tags(t[2], out)
+            store_tags(t[3], out)
+    return out
+
+
 def analyse(ctx, fn, facts=()):
     mod = fn.module
     return scev.emit_pruned(lambda: scev.Aff(fn, facts=list(facts), lookup=lambda n: mod.functions.get(n)))
@@ -280,6 +294,7 @@ def product(ctx, mod, name, tag):
         rep.unk('X1', name + tag, '%d accumulate statements' % len(acc))
         return
     loops, base, idx, val, loc = acc[0]
+    stag = store_tags(tree).get(loc)
     if len(loops) != 3 or any(T is None for _, T in loops):
         rep.unk('X1', name + tag, 'accumulation is not a 3-deep nest with computable trip counts: %s' % (loops,))
         return
@@ -302,8 +317,10 @@ def product(ctx, mod, name, tag):
     if c != 1 or len(fac) != 2 or len(lx) != 1 or len(ly) != 1 or sp.expand(zt[0].args[1] - idx) != 0:
         rep.bad('X1', name + tag, 'statement is not Z[f] += X[g]*Y[h]: Z[%s] = %s' % (idx, val), loc=loc, key='%s: statement form' % name)
         return
-    if len({zt[0].args[2], lx[0].args[2], ly[0].args[2]}) != 1:
-        rep.bad('X1', name + tag, 'operands are read in different memory states', loc=loc, key='%s: statement form' % name)
+    # the accumulator cell is read in the state the store finds (no store in between); X and Y are never written (X2: all stores go
+    # to Z, arrays do not overlap), so where their elements are loaded - in the statement or hoisted out of a loop - does not matter
+    if stag is not None and str(zt[0].args[2]) != str(stag) and len({zt[0].args[2], lx[0].args[2], ly[0].args[2]}) != 1:
+        rep.bad('X1', name + tag, 'the accumulator cell is not read in the state the store finds (a store lies in between)', loc=loc, key='%s: statement form' % name)
         return
     g, h = lx[0].args[1], ly[0].args[1]
     found = None
